@@ -35,11 +35,14 @@ pub struct Sc {
     /// 1: while the request is pending because the server application waits 1 s before accepting (server role)
     pub early_when: u8,
     pub early_sid: u64,
+    /// server role: the raw client puts its CONNECT on its (skip+1)-th bidirectional stream, so the live session id is 4 * skip
+    /// and foreign session ids can be lower as well as higher than the live one
+    pub skip: usize,
 }
 
 impl Sc {
     pub fn to_json(&self) -> Value {
-        json!({"role_server": self.role_server, "early": self.early, "early_when": self.early_when, "early_sid": self.early_sid, "items": self.items.iter().map(|i| json!([i.kind, i.sid, i.live, i.ending, i.payload_len])).collect::<Vec<_>>()})
+        json!({"role_server": self.role_server, "early": self.early, "early_when": self.early_when, "early_sid": self.early_sid, "skip": self.skip, "items": self.items.iter().map(|i| json!([i.kind, i.sid, i.live, i.ending, i.payload_len])).collect::<Vec<_>>()})
     }
     pub fn from_json(v: &Value) -> Sc {
         Sc {
@@ -47,6 +50,7 @@ impl Sc {
             early: v["early"].as_u64().unwrap_or(0) as u8,
             early_when: v["early_when"].as_u64().unwrap_or(0) as u8,
             early_sid: v["early_sid"].as_u64().unwrap_or(0),
+            skip: v["skip"].as_u64().unwrap_or(0) as usize,
             items: v["items"].as_array().unwrap().iter().map(|i| Item { kind: i[0].as_u64().unwrap() as u8, sid: i[1].as_u64().unwrap(), live: i[2].as_bool().unwrap(), ending: i[3].as_u64().unwrap() as u8, payload_len: i[4].as_u64().unwrap() as usize }).collect(),
         }
     }
@@ -66,7 +70,7 @@ pub async fn run(sc: Sc) -> Result<String, String> {
     let (conn, raw, rs, _keep): (wtransport::Connection, Raw, RawSession, Box<dyn std::any::Any>) = if sc.early != 0 {
         early_setup(&world, &tw, &sc, &mut foreign_streams).await?
     } else if sc.role_server {
-        let r = raw_vs_server(&world, &tw, &tw).await?;
+        let r = raw_vs_server_skip(&world, &tw, &tw, sc.skip).await?;
         (r.sconn, r.raw, r.rs, Box::new(r.server_ep))
     } else {
         let r = client_vs_raw(&world, &tw, &tw, "https://localhost/").await?;
@@ -346,9 +350,9 @@ pub fn scenarios(tier: Tier) -> Vec<Sc> {
                         let f = Item { kind, sid, live: false, ending, payload_len: if kind == 2 { len.min(1000) } else { len } };
                         let l = |k: u8| Item { kind: k, sid: 0, live: true, ending: 1, payload_len: 20 };
                         // before, between and after live traffic
-                        out.push(Sc { role_server: role, items: vec![f.clone(), l(0), l(1), l(2)], early: 0, early_when: 0, early_sid: 0 });
-                        out.push(Sc { role_server: role, items: vec![l(0), f.clone(), l(1), f.clone(), l(2)], early: 0, early_when: 0, early_sid: 0 });
-                        out.push(Sc { role_server: role, items: vec![l(2), l(1), l(0), f.clone()], early: 0, early_when: 0, early_sid: 0 });
+                        out.push(Sc { role_server: role, items: vec![f.clone(), l(0), l(1), l(2)], early: 0, early_when: 0, early_sid: 0, skip: 0 });
+                        out.push(Sc { role_server: role, items: vec![l(0), f.clone(), l(1), f.clone(), l(2)], early: 0, early_when: 0, early_sid: 0, skip: 0 });
+                        out.push(Sc { role_server: role, items: vec![l(2), l(1), l(0), f.clone()], early: 0, early_when: 0, early_sid: 0, skip: 0 });
                     }
                 }
             }
@@ -366,9 +370,27 @@ pub fn scenarios(tier: Tier) -> Vec<Sc> {
                 }
                 for &sid in if thorough { &foreign[..] } else { &foreign[..2] } {
                     let l = |k: u8| Item { kind: k, sid: 0, live: true, ending: 1, payload_len: 20 };
-                    out.push(Sc { role_server: role, items: vec![l(2), l(0), l(1)], early, early_when: when, early_sid: sid });
+                    out.push(Sc { role_server: role, items: vec![l(2), l(0), l(1)], early, early_when: when, early_sid: sid, skip: 0 });
                     let f = Item { kind: 2, sid, live: false, ending: 0, payload_len: 5 };
-                    out.push(Sc { role_server: role, items: vec![f, l(2), l(1), l(0), l(2)], early, early_when: when, early_sid: sid });
+                    out.push(Sc { role_server: role, items: vec![f, l(2), l(1), l(0), l(2)], early, early_when: when, early_sid: sid, skip: 0 });
+                }
+            }
+        }
+        // the live session is not session 0: foreign ids below, next to and above the live one
+        if role {
+            for skip in if thorough { vec![1usize, 2, 16, 17] } else { vec![1usize, 16] } {
+                let live = 4 * skip as u64;
+                for fsid in [0u64, live - 4, live + 4, live + 64] {
+                    if fsid == live {
+                        continue;
+                    }
+                    for kind in 0..3u8 {
+                        for ending in if kind == 2 { vec![0u8] } else { vec![0u8, 1] } {
+                            let f = Item { kind, sid: fsid, live: false, ending, payload_len: 5 };
+                            let l = |k: u8| Item { kind: k, sid: 0, live: true, ending: 1, payload_len: 20 };
+                            out.push(Sc { role_server: true, items: vec![l(0), f.clone(), l(1), f.clone(), l(2)], early: 0, early_when: 0, early_sid: 0, skip });
+                        }
+                    }
                 }
             }
         }
@@ -382,7 +404,7 @@ pub fn scenarios(tier: Tier) -> Vec<Sc> {
                 }
             }
             items.push(Item { kind: 2, sid: 0, live: true, ending: 0, payload_len: 9 });
-            out.push(Sc { role_server: role, items, early: 0, early_when: 0, early_sid: 0 });
+            out.push(Sc { role_server: role, items, early: 0, early_when: 0, early_sid: 0, skip: 0 });
         }
     }
     out
@@ -396,7 +418,7 @@ pub fn run_check(args: &Args) -> i32 {
     let rep = Report::new(
         args,
         "exploration",
-        "scenario = role x foreign item (uni stream / bidi stream / datagram naming a valid but non-existent session id in {4, 8, 2^22, 2^62-4}, payload 0 / 5 / 2000 bytes, streams left open / finished / reset after the header) placed before, between and after live-session traffic of all three kinds, plus mixed bursts of 2/5/9 foreign items, plus foreign datagram / uni / bidi traffic (every non-empty subset) sent before the session exists (before the peer's SETTINGS and request; while the request is pending because the server application accepts 1 s later; before the raw server's response); the application keeps accepting; oracle: no foreign payload is ever delivered, every foreign stream is refused with 0x3994bd84, live traffic is all delivered, the connection stays open, no panic",
+        "scenario = role x foreign item (uni stream / bidi stream / datagram naming a valid but non-existent session id in {4, 8, 2^22, 2^62-4}, payload 0 / 5 / 2000 bytes, streams left open / finished / reset after the header) placed before, between and after live-session traffic of all three kinds, plus mixed bursts of 2/5/9 foreign items, plus live sessions on the peer's 2nd / 3rd / 17th / 18th request stream with foreign session ids below, next to and above the live one, plus foreign datagram / uni / bidi traffic (every non-empty subset) sent before the session exists (before the peer's SETTINGS and request; while the request is pending because the server application accepts 1 s later; before the raw server's response); the application keeps accepting; oracle: no foreign payload is ever delivered, every foreign stream is refused with 0x3994bd84, live traffic is all delivered, the connection stays open, no panic",
     );
     rep.assume("session ids of the wrong stream class are connection errors and belong to C12; here only well-formed foreign ids are used");
     let scs = scenarios(args.tier);
